@@ -239,6 +239,10 @@ impl URecorder {
                 e["b_inpool"] = json!(b);
             }
             self.solo[t] = None;
+            if self.op[t] == "close" {
+                // close() has returned (whatever it did)
+                self.close_ret = true;
+            }
             self.op[t] = "none".into();
         }
         self.push(e);
